@@ -136,6 +136,10 @@ def spaces(tier, seed):
                                                                                  "%d %B %Y %H:%M:%S.%f", "%f %d %B %Y"],
                                             "d": [5], "us": [456789, 30000, 5], "pref": [1], "now": [0]},
                 note="strings that match only after translation, with %f away from its usual place (and another '.digits' group in the string)"),
+        Product("week-number-without-a-weekday", {"wo": ["%Y %W", "%H:%M %U %Y", "week %W, %Y"], "first": [None, "%Y %W %a", "%a %U %Y %H:%M"],
+                                                  "ord": range(cal.ordinal(2016, 1, 1), cal.ordinal(2016, 12, 31), 5), "pref": range(len(PREFS)), "now": [0, 3]},
+                note="a week number without a weekday states neither day nor month (strptime ignores it): both come from the preferences; in the same case a "
+                     "week+weekday format is matched first (two-call history)"),
         Product("week-number-formats", {"wf": WEEK_FORMATS, "ord": range(cal.ordinal(2015, 1, 1), cal.ordinal(2025, 1, 1)), "pref": [0, 2], "now": [0, 3]},
                 note="every day 2015..2024 written as week of the year + weekday"),
         Product("yearless-every-day", {"yf": YEARLESS, "doy": range(1, 367), "ynow": range(len(NOW_YL)), "pref": [0, 2]},
@@ -184,6 +188,15 @@ def run_case(sub, c):
         dt = datetime(2013, m, c["d"], 10, 45, 13, c.get("us", 0))
         names = {"month": nm}
         langs = [lang]
+    elif sub == "week-number-without-a-weekday":
+        fmt = c["wo"]
+        dt = datetime(*cal.from_ordinal(c["ord"]), 13, 14, 15)
+        if c["first"]:
+            clock.freeze(now)
+            try:
+                api.outcome_of(api.gdd, render(c["first"], dt, None), ["en"], None, None, {"PREFER_DAY_OF_MONTH": pd, "PREFER_MONTH_OF_YEAR": pm}, [c["first"]])
+            finally:
+                clock.freeze(None)
     elif sub == "week-number-formats":
         fmt = c["wf"]
         dt = datetime(*cal.from_ordinal(c["ord"]), 13, 14, 15)
